@@ -794,7 +794,8 @@ func genPreq(g *hx.Gen, n int) {
 				r.Bytes(hx.Pick(r, []int{20, 32, 0, 5})), r.Bytes(20), randSerial(r)}})
 		}
 		if r.Chance(1, 8) {
-			req.OptionalSignature = asn1.RawValue{FullBytes: must(asn1.Marshal(struct{ A, B []byte }{r.Bytes(3), r.Bytes(3)}))}
+			inner := must(asn1.Marshal(struct{ A, B []byte }{r.Bytes(3), r.Bytes(3)}))
+			req.OptionalSignature = asn1.RawValue{FullBytes: must(asn1.Marshal(asn1.RawValue{Class: 2, Tag: 0, IsCompound: true, Bytes: inner}))}
 			g.Stat("preq.signed")
 		}
 		der := must(asn1.Marshal(req))
